@@ -161,7 +161,12 @@ func (s *Scn) accountLevel(wr world.Write) bool {
 
 // footprintCheck is C05's frame condition for every function but SaveKeyValue.
 func footprintCheck(s *Scn) {
+	// keys are built as fixed prefix + token id (+ nonce): the prefixes (function object, package
+	// level) are read-only during the call, spare capacity included - a key built into a shared
+	// buffer would name another token as soon as the next key is built
+	verif.WatchObject(s.Fn, "function-object")
 	s.Run()
+	verif.WatchOn(false)
 	fp := s.footprint()
 	aliased := verif.Or(aliasedRead(s, s.Snd), aliasedRead(s, s.Dst), aliasedRead(s, s.acctAt(s.DstAddr)))
 	for _, wr := range s.W.Log {
@@ -343,6 +348,14 @@ func authorityCheck(s *Scn) {
 		verif.Reach("authorized-success", true)
 		if s.Name == "ESDTSetRole" || s.Name == "ESDTUnSetRole" {
 			roleEffect(s)
+		}
+		if s.Name == "ESDTNFTCreateRoleTransfer" && s.Dst != nil && len(args) == 2 && verif.BytesEq(s.In.CallerAddr, vmcommon.ESDTSCAddress) {
+			// the hand-over at the current holder: "currently holds" must end here, whatever else
+			// the role list contains (also when the create role was its only entry)
+			if !verif.BytesEq(args[1], s.Dst.Addr) {
+				verif.Assert("handed-over-role-gone-afterwards", !hasRole(rolesAfter(s, s.Dst, args[0]), vmcommon.ESDTRoleNFTCreate))
+				verif.Reach("handed-over", true)
+			}
 		}
 	} else {
 		// an attempt by anyone else changes no state
